@@ -570,6 +570,12 @@ func init() {
 	}
 	H["path.IsAbs"] = isAbs
 	H["path/filepath.IsAbs"] = isAbs
+	H["(github.com/opencontainers/go-digest.Digest).String"] = func(e *Engine, fc *fnCtx, st *State, c *ssa.CallCommon, a []Val, r types.Type) (Val, bool) {
+		// func (d Digest) String() string { return string(d) }
+		v := a[0]
+		v.GoT = tString
+		return v, true
+	}
 	H["path/filepath.ToSlash"] = func(e *Engine, fc *fnCtx, st *State, c *ssa.CallCommon, a []Val, r types.Type) (Val, bool) {
 		e.note("filepath.ToSlash is the identity (unix path separator assumed)")
 		return a[0], true
